@@ -8,7 +8,13 @@ NAME_POOL = [
     "trail ", "x y", "data.bin", "file1", "file10", "file2", "Z", "_", "-dash", "~t",
     "c#d", "p&q", "k=v", "100%", "plus+", "m.n.o", "日本", "a-", "a_", "a b", "README",
 ]
-DIR_POOL = ["a", "d", "dir", "sub", "A", "a.d", "z", "ä", "x y", "d1", "d2", "nested", "a0", ".h"]
+# names that are also metafile keys (a decoder / editor must never confuse payload names with fields)
+KEY_NAMES = ["comment", "source", "private", "announce", "info", "pieces", "length", "files", "name", "path",
+             "file tree", "piece layers", "url-list", "httpseeds", "attr", "meta version", "piece length",
+             "announce-list", "creation date", "pieces root", "created by"]
+NAME_POOL += KEY_NAMES
+DIR_POOL = ["a", "d", "dir", "sub", "A", "a.d", "z", "ä", "x y", "d1", "d2", "nested", "a0", ".h",
+            "source", "comment", "info", "files", "path", "a-", "a 2", "a(1)"]
 
 
 def size_class(size, pl):
